@@ -95,7 +95,7 @@ def make_template(rng, name, nf=None):
     keys = rng.sample(gen.IDENT_KEYS, nf)
     sers = {k: rng.choice(list(SERS)) for k in keys}
     decl = {k: rng.choice(["custom", "custom", "for_types", "factory", "for_value"]) for k in keys}
-    state = {"calls": {k: 0 for k in keys}, "failing": set()}
+    state = {"calls": {k: 0 for k in keys}, "failing": set(), "exc_class": excs.SerFault}
 
     def make_ser(k):
         f = SERS[sers[k]]
@@ -103,7 +103,7 @@ def make_template(rng, name, nf=None):
         def s(v):
             state["calls"][k] += 1
             if k in state["failing"]:
-                raise excs.SerFault("serializer of %s failed" % k)
+                raise state["exc_class"]("serializer of %s failed" % k)
             return f(v)
         return s
 
@@ -155,6 +155,9 @@ def one(seed, i, has_globals, gfields, res, templates=()):
     calls = {k: 0 for k in keys}
     state["calls"] = calls
     state["failing"] = failing
+    # any Exception subclass may come out of a serializer, including ones that iteration protocols treat specially
+    state["exc_class"] = rng.choice([excs.SerFault, StopIteration, StopAsyncIteration, KeyError, IndexError, ValueError, TypeError, RuntimeError,
+                                     AssertionError, AttributeError, LookupError, ArithmeticError, excs.BadStr, RecursionError, NotImplementedError])
     values = {k: gen.gen_value(rng, rng.choice([0, 1, 2])) for k in keys}
     extra = {}
     if rng.random() < 0.4:
@@ -299,7 +302,7 @@ def one(seed, i, has_globals, gfields, res, templates=()):
             problems.append("%s (%s): %d eliot:traceback and %d eliot:serialization_failure messages, expected one each" % (kind, mode, len(tbs), len(sfs)))
         else:
             tb, sf = tbs[0], sfs[0]
-            want_exc = excs.qualname(excs.SerFault) if failing else "builtins.KeyError"
+            want_exc = excs.qualname(state["exc_class"]) if failing else "builtins.KeyError"
             if tb.get("exception") != want_exc:
                 problems.append("traceback message names %r, expected %s" % (tb.get("exception"), want_exc))
             rendering = sf.get("message")
